@@ -85,6 +85,13 @@ def cases(tier):
                 out.append((hdr + '.eseg\n.org %d\n.eseg\n.db 9' % (m - 1), ok, dict(sizes, ee_len=m, rf=0), 'eeprom/.org, same-memory directive, db'))
             if k >= 1 and S + k - 1 > 0:
                 out.append((hdr + '.dseg\n.org %d\n.dseg\n.byte 1' % (S + k - 1), ok, dict(sizes, rf=k), 'ram/.org, same-memory directive, byte'))
+            # something before the origin, in each memory
+            if n >= 3:
+                out.append((hdr + 'nop\n.org %d\nnop' % (n - 1), ok, dict(sizes, code_len=2 * n, rf=0), 'flash/item, .org, nop'))
+            if m >= 4:
+                out.append((hdr + '.eseg\n.db 1, 2\n.org %d\n.db 9' % (m - 1), ok, dict(sizes, ee_len=m, rf=0), 'eeprom/items, .org, db'))
+            if k >= 3 and S + k - 1 > 0:
+                out.append((hdr + '.dseg\n.byte 1\n.org %d\n.byte 1' % (S + k - 1), ok, dict(sizes, rf=k), 'ram/item, .org, byte'))
             for mh in ('.macro seldev\n.device %s\n.endm\nseldev\n' % name, '.macro seldev\n.device @0\n.endm\nseldev %s\n' % name):
                 if n >= 1:
                     out.append((mh + '.org %d\nnop' % (n - 1), ok, dict(sizes, code_len=2 * n, rf=0), 'device chosen inside a macro'))
@@ -108,16 +115,43 @@ def field(canon, name):
             return f[len(name) + 1:]
     return None
 
+def file_cases():
+    """the device selected by a shipped part-definition file: (main text, fits, expected sizes, note)"""
+    return [
+        ('.include "m48def.inc"\n.dseg\n.byte 512\n', True, dict(fs=2048, es=256, rs=512, rf=512), 'part file selects the device, RAM full'),
+        ('.include "m48def.inc"\n.dseg\n.byte 513\n', False, None, 'part file selects the device, RAM + 1'),
+        ('.include "m48def.inc"\n.org 2047\n nop\n', True, dict(fs=2048, code_len=4096), 'part file selects the device, flash full'),
+        ('.include "m48def.inc"\n.org 2048\n nop\n', False, None, 'part file selects the device, flash + 1'),
+        ('.include "m48def.inc"\n.include "m88def.inc"\n nop\n', False, None, 'second device through a second part file'),
+        ('.device ATmega48\n.include "m88def.inc"\n nop\n', False, None, 'second device through a part file'),
+        ('.include "m48def.inc"\n.device ATmega48\n nop\n', False, None, 'second device after a part file'),
+        ('.include "m88def.inc"\n.eseg\n.byte 512\n', True, dict(fs=4096, es=512, ee_len=512), 'part file selects the device, EEPROM full'),
+    ]
+
 def run(tier, seed, model_ok):
+    import tempfile, shutil
     cs = cases(tier)
     trip = [(str(i), 'B', vlib.hx(c[0])) for i, c in enumerate(cs)]
-    impl = vlib.run_impl(trip)
+    # the same through files: the main file in a scratch directory, the shipped includes as include directory
+    root = tempfile.mkdtemp(prefix='avra-c12-')
+    try:
+        inc = os.path.join(vlib.REPO, 'includes')
+        for j, (text, ok, exp, note) in enumerate(file_cases()):
+            pth = os.path.join(root, 'f%d.asm' % j)
+            open(pth, 'w').write(text)
+            trip.append((str(len(cs)), 'F', '%s %s' % (vlib.hx(pth), vlib.hx(inc))))
+            cs.append((text, ok, exp, note))
+        impl = vlib.run_impl(trip)
+    finally:
+        shutil.rmtree(root, ignore_errors=True)
+    nfile = len(file_cases())
+    trip = trip[:-nfile]
     model = vlib.run_model(trip, vlib.cwd_prelude()) if model_ok else {}
     dis, vio = [], []
     for i, (src, ok, exp, note) in enumerate(cs):
         k = str(i)
         a = impl.get(k, 'MISSING')
-        if model_ok and a != model.get(k, 'MISSING'):
+        if model_ok and i < len(cs) - nfile and a != model.get(k, 'MISSING'):
             dis.append({'source': src[:300], 'impl': a[:200], 'model': model.get(k, 'MISSING')[:200], 'note': note})
         short = src if len(src) < 200 else src[:100] + ' ... (%d lines)' % src.count('\n')
         if ok:
@@ -141,7 +175,7 @@ def run(tier, seed, model_ok):
                 vio.append({'what': 'program that needs one unit more than the device has (or selects an unknown/second device) builds', 'source': short, 'impl': a[:60] + '...', 'expected': 'error', 'key': note})
     return {
         'evaluations': len(cs), 'distinct_nontrivial': len({c[0] for c in cs}),
-        'rule': 'every device of the table x flash/EEPROM/RAM x usage capacity-1, capacity, capacity+1 reached by .org+instruction, .org+data (even, odd .db, .dd), plain code and data lines (small devices), .byte reservations, labelled one-byte variables; the same followed by a line that occupies nothing (.set, .def, #pragma, a label, .equ+.message, .byte 0); an origin followed by a redundant directive of the memory already selected; the device chosen inside a called macro (literal and @0); second and unknown device selection; default sizes; capacities expected from the shipped part file where one exists; distinct = distinct programs',
+        'rule': 'every device of the table x flash/EEPROM/RAM x usage capacity-1, capacity, capacity+1 reached by .org+instruction, .org+data (even, odd .db, .dd), plain code and data lines (small devices), .byte reservations, labelled one-byte variables; the same followed by a line that occupies nothing (.set, .def, #pragma, a label, .equ+.message, .byte 0); an origin followed by a redundant directive of the memory already selected; the device chosen inside a called macro (literal and @0); an item before the origin in each memory; second and unknown device selection; the device selected through the shipped part files m48def.inc / m88def.inc (full, +1, second device); default sizes; capacities expected from the shipped part file where one exists; distinct = distinct programs',
         'samples': [cs[0][0], cs[7][0][:80]],
         'exhaustive': True,
         'distribution': dict(Counter(c[3] for c in cs)),
